@@ -40,7 +40,7 @@ def plan(tier, seed):
                           hashseed=k))
     meta = dict(
         rule=RULE,
-        require=['scenarios', 'accepted', 'refused', 'roots_checked',
+        require=['loads_with_reordering_due', 'scenarios', 'accepted', 'refused', 'roots_checked',
                  'fmt_pickle', 'fmt_json', 'fmt_manager', 'roots_none',
                  'levels_false_other_order', 'json_load_order'] +
                 ['target_' + t for t in TARGETS],
@@ -284,15 +284,18 @@ def one_pickle(ctx, rng, reg, info):
     if not levels and tkind in ('other-order', 'extra-interleaved',
                                 'subset', 'fresh'):
         ctx.counters['levels_false_other_order'] += 1
+    due = _reordering_due(ctx, rng, tgt)
     try:
         back = tgt.bdd.load(fn, levels=levels)
     except ValueError as e:
+        _reordering_after(due, tgt, 'load-pickle', info)
         os.remove(fn)
         if expect_ok:
             raise Violation('load-pickle', 'refused-a-loadable-file',
                             dict(info, exc=repr(e)[:200]))
         ctx.counters['refused'] += 1
         return
+    _reordering_after(due, tgt, 'load-pickle', info)
     os.remove(fn)
     ctx.counters['accepted'] += 1
     # (accepting where a refusal was predicted is fine if the roots are
@@ -371,12 +374,14 @@ def one_json(ctx, rng, reg, info):
     # load_order=True re-orders the target to the file's order, which
     # needs the target to declare no other variable
     expect_ok = (not load_order) or set(tgt.raw.vars) <= set(file_vars)
+    due = _reordering_due(ctx, rng, tgt)
     try:
         if load_order or rng.random() < 0.5:
             back = _c.load_json(fn, tgt.bdd, load_order=load_order)
         else:
             back = tgt.bdd.load(fn)
     except ValueError as e:
+        _reordering_after(due, tgt, 'load-json', info)
         os.remove(fn)
         if expect_ok:
             raise Violation('load-json', 'refused-a-loadable-file',
@@ -385,6 +390,7 @@ def one_json(ctx, rng, reg, info):
         return
     os.remove(fn)
     ctx.counters['accepted'] += 1
+    _reordering_after(due, tgt, 'load-json', info)
     if load_order and dict(tgt.raw.vars) != file_vars:
         raise Violation('load-json', 'load_order-did-not-restore-order',
                         dict(info, got=dict(tgt.raw.vars)))
@@ -442,6 +448,24 @@ def one_manager(ctx, rng, reg, info):
 def _cleanup(src, tgt):
     for s in {id(src): src, id(tgt): tgt}.values():
         s.release()
+
+
+def _reordering_due(ctx, rng, tgt):
+    """In a third of the loads the receiving manager has dynamic
+    reordering enabled and due at the next node creation."""
+    if rng.random() >= 0.33:
+        return False
+    tgt.raw._last_len = 1
+    ctx.counters['loads_with_reordering_due'] += 1
+    return True
+
+
+def _reordering_after(due, tgt, site, info):
+    if not due:
+        return
+    still = tgt.raw.configure(reordering=False)['reordering']
+    if not still:
+        raise Violation(site, 'reordering-switched-off', info)
 
 
 def run_shard(ctx, spec):
